@@ -365,7 +365,7 @@ def main(tier, seed):
             print("KNOWN-FINDING: property=%s %s" % (prop, k.get("what", v["signature"])))
             continue
         # keep the witness program next to the replay file (the build dir is scratch)
-        keep = os.path.join(vlib.ROOT, "replays", "C19-" + v["name"] + ".rs")
+        keep = os.path.join(vlib.OUT, "replays", "C19-" + v["name"] + ".rs")
         os.makedirs(os.path.dirname(keep), exist_ok=True)
         try:
             shutil.copy(v["probe"], keep)
